@@ -440,6 +440,14 @@ def fam_inv(tier: str, rng: random.Random) -> Iterator[dict]:
         for form in ERR_FORMS:
             yield class_prog(inv_on, members[:3], [(1, 1)], init_setst=2, inv_err=form, tag="inv-ctor-breaks")
             yield class_prog(inv_on, members[:3], [(2, 1), (1, 1)], inv_err=form, tag="inv-err")
+    # the argument (and, through the class, `self`) passed by keyword: the wrappers must find the instance
+    for inv_on in (["CALL"], ["ALL"]):
+        for kw in (1, 2):
+            for m in (1, 2, 3):
+                p = class_prog(inv_on, members[:5], [(m, 1), (1, 1)], with_pre_on_first=True, tag="inv-kw")
+                for op in p["drv"][0][1:]:
+                    op["kw"] = kw
+                yield p
     # two instances: operations on one never touch the other
     for inv_on in (["CALL"], ["ALL"]):
         for m1 in (1, 2, 3, 4):
